@@ -105,6 +105,13 @@ def h : Handler := fun op j =>
         | _ => .error "!bad-arg:varied"
       let r : Except Err (List Nat × List Nat × List (List Rat)) := perSubstanceVaried (← getNat j "ns") (← getRatList j "base") varied
       pure (showExc (fun (k, sh, rows) => s!"{showNatList k};{showNatList sh};[{",".intercalate (rows.map showRatList)}]") r)
+  | "root_args" => do
+      let x0 : Option (List Rat) ← match j.getObjVal? "x0" with
+        | .ok .null => pure none
+        | .ok _ => do pure (some (← getRatList j "x0"))
+        | .error _ => pure none
+      let (g, p) := rootArgs (← getRatList j "init") x0 (← getRatList j "consts")
+      pure s!"{showRatList g};{showRatList p}"
   | _ => .error "!bad-op"
 
 def main : IO Unit := run h
